@@ -974,6 +974,36 @@ def lists_case(rng):
     return "%d %s" % (n, " ".join(ops))
 
 
+def lists_run_impl(cases, max_restarts=60):
+    """Runs the cases through the harness' lists mode. A case on which the process dies (abort, signal, timeout) gets the
+    output `abort` and the harness is restarted on the remaining cases (at most `max_restarts` times)."""
+    outs = []
+    rc_last = 0
+    start = 0
+    restarts = 0
+    while start < len(cases):
+        text = "\n".join(cases[start:]) + "\n"
+        try:
+            p = subprocess.run([corr.harness_bin(F_ALL), "lists"], input=text, capture_output=True, text=True, timeout=300)
+            got, rc = p.stdout.splitlines(), p.returncode
+        except subprocess.TimeoutExpired as ex:
+            got, rc = ((ex.stdout or b"").decode("utf-8", "replace").splitlines() if isinstance(ex.stdout, bytes) else (ex.stdout or "").splitlines()), -9
+        n = len(cases) - start
+        if len(got) >= n:
+            outs += got[:n]
+            return outs, 0 if restarts == 0 else rc_last
+        # died while running case start + len(got) (a possibly half-written last line is dropped)
+        outs += got
+        outs.append("abort")
+        rc_last = rc
+        start += len(got) + 1
+        restarts += 1
+        if restarts >= max_restarts:
+            outs += ["(not run)"] * (len(cases) - start)
+            break
+    return outs, rc_last
+
+
 def lists_probe(prop, tier, seed, rep, vals_line=None):
     """C11 / C02: the intrusive lists of src/lists.rs (LinkedList, PossibleCycles with its cached size, LinkedQueue) driven on
     scratch boxes through the hook `lists_run`, against (a) the pointer-level Lean model Model/Lists.lean, which
@@ -988,9 +1018,9 @@ def lists_probe(prop, tier, seed, rep, vals_line=None):
               "5 pa:0 pa:1 la1:2 la1:3 pm1:2 pr:2 pr:0 pr:3 pa:0 ps0 lf0 lf0 pm0:1", "2 pa:0 it:0 it:0 mk:0:1 la0:1 pm0:3 pf pf"]
     cases = corpus + [lists_case(rng) for _ in range(ncases)]
     text = "\n".join(cases) + "\n"
-    p1 = subprocess.run([corr.harness_bin(F_ALL), "lists"], input=text, capture_output=True, text=True, timeout=1200)
+    io, impl_rc = lists_run_impl(cases)
     p2 = subprocess.run([corr.DRIVER, "lists"], input=text, capture_output=True, text=True, timeout=1200)
-    io, mo = p1.stdout.splitlines(), p2.stdout.splitlines()
+    mo = p2.stdout.splitlines()
     nops = 0
     wrong = []
     mism = []
@@ -1006,6 +1036,8 @@ def lists_probe(prop, tier, seed, rep, vals_line=None):
         nops += len(exp)
         a = [x.strip() for x in io[ci].split("|")] if ci < len(io) else None
         b = [x.strip() for x in mo[ci].split("|")] if ci < len(mo) else None
+        if a == ["(not run)"]:
+            continue
         if a != exp:
             k = next((j for j in range(len(exp)) if a is None or j >= len(a) or a[j] != exp[j]), len(exp))
             wrong.append((c, k, exp[k] if k < len(exp) else "-", (a[k] if a is not None and k < len(a) else "(no output)")))
@@ -1013,13 +1045,12 @@ def lists_probe(prop, tier, seed, rep, vals_line=None):
             mism.append((c, a, b))
     cov = {"lists_cases": len(cases), "lists_operations": nops, "lists_op_histogram": dict(sorted(ophist.items())),
            "lists_spec_violations": len(wrong), "lists_model_mismatches": len(mism), "extra_evaluations": nops}
-    if p1.returncode != 0 and not wrong:
-        wrong.append((cases[min(len(io), len(cases) - 1)], 0, "-", "harness crashed rc=%s" % p1.returncode))
+    if impl_rc != 0 and not wrong:
+        wrong.append((cases[min(len(io), len(cases) - 1)], 0, "-", "harness crashed rc=%s" % impl_rc))
     if wrong:
         # shrink: shortest prefix of the shortest failing case that still deviates, then drop single operations greedily
         def deviates(lines):
-            pr = subprocess.run([corr.harness_bin(F_ALL), "lists"], input="\n".join(lines) + "\n", capture_output=True, text=True, timeout=600)
-            outs = pr.stdout.splitlines()
+            outs, _ = lists_run_impl(lines)
             res = []
             for li, l in enumerate(lines):
                 tk = l.split()
@@ -1062,7 +1093,7 @@ def lists_probe(prop, tier, seed, rep, vals_line=None):
     return cov
 
 
-EXTRA_STEPS = {"C16": words_probe, "C15": policy_probe, "C03": layout_and_cycles_probe, "C13": layout_probe, "C11": lists_probe, "C02": lists_probe}
+EXTRA_STEPS = {"C16": words_probe, "C15": policy_probe, "C03": layout_and_cycles_probe, "C13": layout_probe, "C11": lists_probe, "C02": lists_probe, "C09": words_probe}
 
 
 def simple_probe_check(prop, tier, seed, rep, runner):
